@@ -219,6 +219,18 @@ class Interp(Folder):
                     o.attrs[n] = self.ev(default, denv)
         return o
 
+    # ---- iteration ---------------------------------------------------------------------------------------
+    set_order = "asc"  # sets have no order: the caller evaluates with "asc" and "desc" and requires the same verdict
+
+    def iterate(self, v):
+        if isinstance(v, Obj):
+            if "__iter__" in v.cls.methods:
+                return list(self.iterate(self.call(v.cls.methods["__iter__"].bind(v), [], {}, None, None)))
+            raise PyRaise("TypeError", f"'{v.cls.name}' object is not iterable")
+        if isinstance(v, (set, frozenset)):
+            return sorted(v, key=repr, reverse=self.set_order == "desc")
+        return v
+
     # ---- expressions ---------------------------------------------------------------------------------
     def ev(self, e, env):
         self.steps += 1
@@ -320,6 +332,8 @@ class Interp(Folder):
             hi = self.ev(e.slice.upper, env) if e.slice.upper else None
             return _py(lambda: v[lo:hi])
         k = self.ev(e.slice, env)
+        if isinstance(v, Obj) and "__getitem__" in v.cls.methods:
+            return self.call(v.cls.methods["__getitem__"].bind(v), [k], {}, e, env)
         return _py(lambda: v[k])
 
     def _type_eq(self, a, b):
@@ -359,6 +373,9 @@ class Interp(Folder):
                 ok = left == right
             elif isinstance(op, ast.NotEq):
                 ok = left != right
+            elif isinstance(op, (ast.In, ast.NotIn)) and isinstance(right, Obj) and "__contains__" in right.cls.methods:
+                r_ = bool(self.call(right.cls.methods["__contains__"].bind(right), [left], {}, e, env))
+                ok = r_ if isinstance(op, ast.In) else not r_
             elif isinstance(op, ast.In):
                 ok = _py(lambda: left in right)
             elif isinstance(op, ast.NotIn):
@@ -386,6 +403,8 @@ class Interp(Folder):
         a, b = self.ev(e.left, env), self.ev(e.right, env)
         if isinstance(e.op, ast.BitOr) and (isinstance(a, (TypeCtor, IClass, type)) or (isinstance(a, tuple) and a[:1] == ("union",)) or a is None):
             return ("union", a, b)
+        if isinstance(e.op, ast.RShift) and isinstance(b, tuple) and b[:1] == ("pipe",):
+            return self.call(b[1], [a], {}, e, env)
         if isinstance(e.op, ast.Add):
             return _py(lambda: a + b)
         if isinstance(e.op, ast.Sub):
@@ -430,6 +449,8 @@ class Interp(Folder):
         if isinstance(e.func, ast.Name) and e.func.id == "super":
             self.err(e, "super()")
         f = self.ev(e.func, env)
+        if isinstance(f, NoOp):
+            return None  # argument validation helpers of the public wrappers: their arguments are not evaluated either
         args = self._elts(e.args, env)
         kwargs = {}
         for k in e.keywords:
@@ -625,7 +646,7 @@ class Interp(Folder):
                 raise PyRaise("AssertionError", norm(st.test)[:200], st)
             return
         if isinstance(st, ast.For):
-            for item in list(self.ev(st.iter, env)):
+            for item in list(self.iterate(self.ev(st.iter, env))):
                 self.bind(st.target, item, env)
                 try:
                     self.exec_block(st.body, env)
@@ -683,5 +704,10 @@ class Interp(Folder):
             return
         if isinstance(st, ast.If):
             self.exec_block(st.body if self.ev(st.test, env) else st.orelse, env)
+            return
+        if isinstance(st, ast.AugAssign):
+            tgt_load = ast.copy_location(ast.parse(ast.unparse(st.target), mode="eval").body, st.target)
+            val = self.ev_BinOp(ast.BinOp(left=tgt_load, op=st.op, right=st.value), env)
+            self.bind(st.target, val, env)
             return
         super().exec_stmt(st, env)
